@@ -386,6 +386,8 @@ class SplitModel(object):
             raise Undecided("split model: operator in %s" % norm(e))
         if isinstance(e, ast.UnaryOp) and isinstance(e.op, ast.USub):
             return -self.ival(e.operand, st, ov)
+        if isinstance(e, ast.IfExp):
+            return self.ival(e.body if self.test(e.test, st, ov) else e.orelse, st, ov)
         return self.const(e, ov)
 
     def _is_span_expr(self, e, st):
